@@ -1,51 +1,89 @@
 (* Properties/C03.v — OSM XML decoding is faithful; the streaming scan equals whole-document
-   decode.  Only statements; proofs are in Verif.Codec.* and Verif.C03.*.
+   decode.  Only statements; proofs are in Verif.Codec.*, Verif.C03.* (and the C04 round trips).
 
-   FULL STATEMENTS (targets):
-     decode_faithful : forall T v doc, wfb gen_schema T v = true ->
-        noise (spec_doc T v) doc ->                 (* extra unknown attributes / clean unknown
-                                                       elements, any attribute order, children
-                                                       shuffled keeping the order within a name,
-                                                       osmChange blocks split and interleaved *)
-        decode gen_schema T doc = Ok v
-     scanner_eq_decode : forall T doc, doc_ok T doc = true ->
-        decode gen_schema T doc = Ok v ->
-        scan_el gen_schema doc = (objects of doc in document order, None) and every per-kind /
-        per-block list of v is the sub-sequence of that scan with that block and kind.
-   PARTIAL: proved for all structs, values, positions and fuels are the two facts the first
-   statement rests on besides the C04 round trip — the struct decoder is field-wise (so attribute
-   order and the interleaving of differently named children are irrelevant) and an unknown
-   attribute is ignored wherever it stands.  The scanner statement is only instantiated on
-   examples; both statements are evaluated inside Coq on every generated document by Check.v. *)
-From Coq Require Import List String Bool ZArith.
-From Verif Require Import Codec.Schema Codec.Value Codec.Xml Codec.Scan Codec.ProofsAttr Codec.ProofsKids
-     Codec.ProofsRT C03.Spec C03.Proofs.
+   The documents: for a well-formed value v of any of the ten document types, the tree e the
+   writer model produces (encode1; its names are the OSM XML vocabulary by C04.schema_ok), with any
+   NOISE (C03/Noise.v): unknown attributes inserted anywhere in any start element, unknown elements
+   — whole subtrees of unknown names — inserted anywhere among any children, at any depth.
+   A name is unknown when the schema regenerated from /repo does not use it and it is not, in any
+   letter case, one of the scanner's object names (closedness is a vm_compute obligation).
+   Attribute ORDER is covered separately (attribute_order_irrelevant); whitespace, comments,
+   escaping, self-closing tags, lexical forms are below the tree model (DESIGN section 7) and
+   exercised by the independent writer of the harness.
+
+   PARTIAL: repeated / interleaved osmChange blocks and children reordered across names are not in
+   the noise relation; for those the per-field theorem decoder_is_fieldwise (the loops compute a
+   per-field fold of the field's own children, whatever is interleaved) and the example
+   interleaved_blocks are what is proved; the full statement for them is evaluated by Check.v. *)
+From Coq Require Import List String Bool ZArith Permutation.
+From Verif Require Import Codec.Schema Codec.Value Codec.Xml Codec.Wf Codec.Scan Codec.ProofsAttr Codec.ProofsKids
+     Codec.ProofsRT C03.Spec C03.Proofs C03.Noise C03.Faithful.
 From VerifGen Require Import GenSchema.
 Import ListNotations.
 Open Scope string_scope.
 Open Scope list_scope.
 
-(* independence of unknown attributes: an attribute that names no attr field of the struct can
-   be inserted anywhere in the start element *)
-Theorem unknown_attr_ignored_partial : forall sch a1 fs vs an a a2,
+(* --- decoding yields exactly what was written, whatever unknown attributes / elements are added --- *)
+Theorem decode_faithful : forall T v doc e,
+  In T ["Node"; "Way"; "Relation"; "Changeset"; "Note"; "User"; "Bounds"; "OSM"; "Change"; "Diff"] ->
+  wfb gen_schema T v = true ->
+  encode1 gen_schema T v = Ok e -> noise unknown_gen e doc ->
+  decode gen_schema T doc = Ok v.
+Proof. exact decode_faithful_gen. Qed.
+Print Assumptions decode_faithful.
+
+(* --- the streaming scanner yields, in document order, the objects of the value the
+       whole-document decoder returns (flatten: the object itself; bounds, nodes, ways, relations,
+       changesets, notes, users of an <osm>; the same per create / modify / delete block of an
+       osmChange; per diff action the created element, the objects of old, of new, then the
+       changesets) --- *)
+Theorem scanner_eq_decode : forall T v doc e,
+  In T ["Node"; "Way"; "Relation"; "Changeset"; "Note"; "User"; "Bounds"; "OSM"; "Change"; "Diff"] ->
+  wfb gen_schema T v = true ->
+  encode1 gen_schema T v = Ok e -> noise unknown_gen e doc ->
+  decode gen_schema T doc = Ok v /\ scan_el gen_schema doc = (flatten T v, None).
+Proof. exact scanner_eq_decode_gen. Qed.
+Print Assumptions scanner_eq_decode.
+
+(* --- the generic invariance behind both, for any schema closed under the unknown predicate:
+       decoder and scanner do not see the noise --- *)
+Theorem noise_invisible_to_decoder : forall sch unknown fz m ty cur e e',
+  closed sch unknown = true -> noise unknown e e' ->
+  unmarshal sch fz m ty cur e' = unmarshal sch fz m ty cur e.
+Proof. exact noise_unmarshal. Qed.
+Print Assumptions noise_invisible_to_decoder.
+
+Theorem noise_invisible_to_scanner : forall sch unknown e e',
+  closed sch unknown = true -> kinds_known unknown -> noise unknown e e' ->
+  scan_el sch e' = scan_el sch e.
+Proof. intros sch unknown e e' Hc Hk. exact (proj1 (noise_scan sch unknown Hc Hk) e e'). Qed.
+Print Assumptions noise_invisible_to_scanner.
+
+(* --- attribute order: any permutation of attributes with pairwise different names decodes to
+       the same fields --- *)
+Theorem attribute_order_irrelevant : forall sch al al', Permutation al al' -> NoDup (map fst al) ->
+  forall fs vs r, unmarshal_attrs sch fs vs al = Ok r -> unmarshal_attrs sch fs vs al' = Ok r.
+Proof. exact unmarshal_attrs_perm. Qed.
+Print Assumptions attribute_order_irrelevant.
+
+(* --- building blocks, also used for documents outside the noise relation --- *)
+Theorem unknown_attr_ignored : forall sch a1 fs vs an a a2,
   List.length fs = List.length vs ->
   (forall f, In f fs -> attr_hit sch f an = false) ->
   unmarshal_attrs sch fs vs (a1 ++ (an, a) :: a2) = unmarshal_attrs sch fs vs (a1 ++ a2).
 Proof. exact unknown_attr_ignored_gen. Qed.
-Print Assumptions unknown_attr_ignored_partial.
+Print Assumptions unknown_attr_ignored.
 
-(* independence of unknown elements: an element that matches no element field of the struct
-   (PNone for every field) can be inserted anywhere among the children *)
-Theorem unknown_child_ignored_partial : forall sch unm k1 fs vs c k2,
+Theorem unknown_child_ignored : forall sch unm k1 fs vs c k2,
   (forall f, In f fs -> path_match sch f [] (xname c) = PNone) ->
   List.length fs = List.length vs ->
   unmarshal_kids sch unm fs vs [] false (k1 ++ c :: k2) = unmarshal_kids sch unm fs vs [] false (k1 ++ k2).
 Proof. exact unknown_child_ignored_gen. Qed.
-Print Assumptions unknown_child_ignored_partial.
+Print Assumptions unknown_child_ignored.
 
-(* independence of attribute order and of the interleaving of children with different names:
-   the decoder's loops compute a per-field fold (distinct element names, no a>b path) *)
-Theorem decoder_is_fieldwise_partial : forall sch unm d bs e st1 st2,
+(* independence of the interleaving of children with different names (repeated / interleaved
+   blocks): the decoder's loops compute a per-field fold of the field's own children *)
+Theorem decoder_is_fieldwise : forall sch unm d bs e st1 st2,
   all_supported (struct_fields d) = true ->
   (String.eqb (xmlname_tag d) "" || String.eqb (xmlname_tag d) (xname e)) = true ->
   parents_ok (struct_fields d) = true ->
@@ -54,17 +92,16 @@ Theorem decoder_is_fieldwise_partial : forall sch unm d bs e st1 st2,
   Forall3 (fun f b r => absorb_kids sch unm f b (xkids e) = Ok r) (struct_fields d) st1 st2 ->
   unmarshal_struct sch unm d (VStruct bs) e = Ok (VStruct st2).
 Proof. exact unmarshal_struct_fieldwise. Qed.
-Print Assumptions decoder_is_fieldwise_partial.
+Print Assumptions decoder_is_fieldwise.
 
-(* a field only sees its own children: elements with other names can be interleaved freely *)
-Theorem field_skips_foreign_children_partial : forall sch unm f kids x,
+Theorem field_skips_foreign_children : forall sch unm f kids x,
   (forall c, In c kids -> key_hit sch f (xname c) = false) -> absorb_kids sch unm f x kids = Ok x.
 Proof. exact absorb_kids_skip. Qed.
-Print Assumptions field_skips_foreign_children_partial.
+Print Assumptions field_skips_foreign_children.
 
 (* Boundary of the domain: an unknown element wrapping a known object element is stepped into
    by the token-level scanner but skipped as a whole by the document decoder, so the two
-   readers differ there; such documents are excluded by doc_ok (clean unknown elements). *)
+   readers differ there; the noise relation (all_unknown subtrees) and doc_ok exclude it. *)
 Theorem scanner_descends_unknown_example :
   exists doc, doc_ok "OSM" doc = false /\
               fst (scan_el gen_schema doc) <> [] /\
@@ -72,9 +109,17 @@ Theorem scanner_descends_unknown_example :
 Proof. exact scanner_descends_unknown. Qed.
 Print Assumptions scanner_descends_unknown_example.
 
-(* non-vacuity / instance: repeated and interleaved osmChange blocks *)
+(* non-vacuity / instances *)
 Example interleaved_blocks :
   doc_ok "Change" interleaved_doc = true /\
   node_ids (fst (scan_el gen_schema interleaved_doc)) = [VInt 1; VInt 2; VInt 3] /\
   match decode gen_schema "Change" interleaved_doc with Ok _ => true | Err _ => false end = true.
 Proof. exact interleaved_blocks_example. Qed.
+
+Example noisy_document :
+  unknown_gen "zzattr" = true /\ unknown_gen "zzfoo" = true /\ unknown_gen "id" = false /\ unknown_gen "Node" = false
+  /\ decode gen_schema "Node" nv_doc = Ok nv_node /\ scan_el gen_schema nv_doc = ([("Node", nv_node)], None).
+Proof.
+  destruct nv_unknowns as (H1 & _ & H3 & _ & H5 & H6). destruct nv_decodes as [D1 D2].
+  repeat split; assumption.
+Qed.
